@@ -79,6 +79,20 @@ def other_key(kind):
     return _other_keys[kind]
 
 
+_fresh_keys = {}
+
+
+def fresh_key(tag):
+    """pk = "fresh-<n>": the n-th of a family of distinct generated ECDSA keys, for unsigned probes ("is this key
+    acceptable?") that each offer ANOTHER key, as a client walking through a well-stocked agent does"""
+    if tag not in _fresh_keys:
+        k = paramiko.ECDSAKey.generate(bits=256)
+        if any(k.asbytes() == o.asbytes() for o in _fresh_keys.values()) or k.asbytes() == host_key("ecdsa-256").asbytes():
+            raise Machinery("generated probe keys are not distinct")
+        _fresh_keys[tag] = k
+    return _fresh_keys[tag]
+
+
 # ----------------------------------------------------------------------------- link with exact quiescence
 
 class QEnd(EndSock):
@@ -480,11 +494,15 @@ class AuthSession:
                 if req.get("change"):
                     m.add_string("new" + names["password"])
             elif method == "publickey":
-                keykind, alg = PK_VARIANTS[req.get("pk") or names["pk"]]
+                pk = req.get("pk") or names["pk"]
+                fresh = pk.startswith("fresh-")
+                if fresh and req["sig"] != "absent":
+                    raise Machinery("fresh-<n> keys are for unsigned probes only")
+                keykind, alg = PK_VARIANTS["ecdsa-256" if fresh else pk]
                 s = self._sign(req, user, service, keykind, alg)
                 m.add_boolean(s is not None)
                 m.add_string(alg)
-                m.add_string(host_key(keykind).asbytes())
+                m.add_string((fresh_key(pk) if fresh else host_key(keykind)).asbytes())
                 if s is not None:
                     m.add_string(s)
             elif method == "keyboard-interactive":
@@ -677,7 +695,7 @@ from harness.core import cfg_text  # noqa: E402
 TOGGLES = {"GssHonoursCallback": True, "BlobOmits": "", "KeepsResultAfterBadSig": False, "KeepsResultOnForeignLabel": False,
            "RekeyResetsAuthState": False, "PkOkCachesApproval": False, "EmptyListPromotesPartial": False, "OnlyConstantsReject": False, "BlobUsesCurrentHash": False, "UnpinnedUser": "",
            "ServiceRequestResets": False,
-           "ProbeAuthenticates": False, "PinsUser": True, "PartialCounts": False, "CapOffset": 0}
+           "ProbeAuthenticates": False, "PinsUser": True, "PartialCounts": False, "CapOffset": 0, "ProbeFailCounts": True}
 ALL_CONFIGS = {"plain", "gss", "gss+ctx", "gss+bound", "gss+ctx+bound"}
 INVS = ["GrantNeedsApproval", "OneUser", "CapRespected"]
 PROPS = ["SuccessMeansAuthenticated", "ProbeNeverAuthenticates", "GrantIsAnnounced", "SwitchEnds",
